@@ -545,3 +545,63 @@ _t(
     entry=("tq.m1", "root_pos"),
     kept=["/t13/a"],
 )
+
+# ---------------------------------------------------------------- T10: further constructs - variable read through a module alias, multi-line
+# keep call with a run-time argument, lambda handed to a higher-order helper, function defined inside a function, dds_function decorator
+_T10_M2 = '''
+Q = 0
+R = 0
+
+
+def scale(v):
+    tick.hit("scale")
+    return ("sc", v, R)
+'''
+_T10 = '''
+import tq.m2 as mm
+from tq.m2 import scale
+
+L = 0
+
+
+def apply(fn, v):
+    return fn(v)
+
+
+def g(x, y=5):
+    tick.hit("g")
+    return ("g", x, y)
+
+
+def outer_fn():
+    def inner_fn(v):
+        return ("in", v, L)
+    return inner_fn(1)
+
+
+@dds.dds_function("/t10/old")
+def old_style():
+    tick.hit("old_style")
+    return ("old", mm.Q)
+
+
+@dds.data_function("/t10/f")
+def f():
+    tick.hit("f")
+    z = (L,
+         1)
+    c = dds.keep("/t10/c",
+                 g,
+                 z,
+                 y=6)
+    return ("f", old_style(), scale(2), apply(lambda v: ("lam", v, L), 3), outer_fn(), c)
+'''
+_t(
+    "T10",
+    [PKG, ("tq.m2", {"a": HEAD + _T10_M2, "b": HEAD + _T10_M2.replace('("sc", v, R)', '("sc2", v, R)')}),
+     ("tq.m1", {"a": HEAD + _T10, "b": HEAD + _T10.replace('("lam", v, L)', '("lam2", v, L)'), "c": HEAD + _T10.replace('("in", v, L)', '("in2", v, L)'), "d": HEAD + _T10.replace("y=6)", "y=7)")})],
+    leaves=[("tq.m1", "L", "int", True), ("tq.m2", "Q", "int", True), ("tq.m2", "R", "int", True)],
+    entry=("tq.m1", "f"),
+    kept=["/t10/old", "/t10/c", "/t10/f"],
+)
+T["T10"].modules["tq.zclash"] = {"a": clash_source(T["T10"])}
